@@ -849,6 +849,7 @@ def render(t):
 
 
 _DRIVER_FILES = {"registry": "Registry", "exec": "Exec", "items": "ItemSpace", "relative": "Relative",
+                 "relhist": "RelHist",
                  "export": "Export", "codec": "Codec", "iospec": "IOSpec", "capture": "Capture",
                  "backup": "Backup", "calcsteps": "CalcSteps", "struct": "Struct", "smech": "SMech",
                  "serial": "Serial"}
